@@ -88,6 +88,9 @@ func genSeqCfg(rng *rand.Rand, prof string, idx int) seqCfg {
 			cfg.WT[rng.Intn(n)] = cfg.Max + 1 + int64(rng.Intn(3)) // an entry heavier than the maximum
 		}
 	}
+	if cfg.Size != "none" && (prof == "size" || prof == "mix") && rng.Intn(5) == 0 {
+		cfg.Max += hugeLog // a maximum of 2^32 + k (logged as 2^30 + k): nothing is ever evicted for size
+	}
 	if lay.e {
 		cfg.Expiry = pick(rng, "creating", "writing", "accessing", "custom")
 		cfg.E = int64(1 + rng.Intn(6))
@@ -298,7 +301,14 @@ func (g *seqGen) genOp() seqOp {
 			op.Shape = "panic"
 		}
 	case "SetMaximum":
-		op.M = int64(g.rng.Intn(int(g.cfg.Max) + 4))
+		if g.cfg.Max >= hugeLog {
+			op.M = hugeLog + int64(g.rng.Intn(int(g.cfg.Max-hugeLog)+4))
+			if g.rng.Intn(6) == 0 {
+				op.M -= hugeLog // back to a small maximum
+			}
+		} else {
+			op.M = int64(g.rng.Intn(int(g.cfg.Max) + 4))
+		}
 		if (g.prof == "persist" || g.prof == "size") && g.rng.Intn(3) == 0 {
 			op.DK = "fit" // exactly full: resolved by the driver at run time
 		}
